@@ -163,15 +163,33 @@ def rank_generic_scopes():
     return out
 
 
+def result_arg_scopes():
+    """Functions whose character result is passed back through an argument (format F_string_result_as_arg,
+    docs/fortran.rst), overloaded / with default arguments / with explicit suffixes: with F_CFI the clone that Fortran
+    calls carries the suffix of its function as without.  -> list of (declarations, names)"""
+    out = []
+    ra = {"F_string_result_as_arg": "output"}
+    a = {"decl": "const std::string & alpha(int a1)", "format": dict(ra)}
+    b = {"decl": "const std::string & alpha(double a1)", "format": dict(ra)}
+    d = {"decl": "const char * alpha(int a1, int a2 = 1)", "format": dict(ra)}
+    x = {"decl": "const std::string & alpha(int a1)", "format": dict(ra, function_suffix="_from_index")}
+    y_ = {"decl": "const std::string & alpha(const std::string & a1)", "format": dict(ra, function_suffix="_from_name")}
+    other = {"decl": "void Beta(int a1)"}
+    for decls in ([a], [a, b], [d], [x, y_], [a, b, other], [d, other]):
+        out.append(([json.loads(json.dumps(e)) for e in decls], sorted({e["decl"].split("(")[0].split()[-1] for e in decls})))
+    return out
+
+
 def one_rank(job):
-    decls, names, scope, idx, base = job
+    decls, names, scope, idx, base = job[:5]
+    more_options = job[5] if len(job) > 5 else {}
     libname = "rlib%d" % idx
     import yaml
 
     d = os.path.join(base, libname)
     os.makedirs(d)
     y = {"library": libname, "cxx_header": libname + ".hpp",
-         "options": {"debug": True, "F_force_wrapper": True, "wrap_python": False, "wrap_lua": False}}
+         "options": dict({"debug": True, "F_force_wrapper": True, "wrap_python": False, "wrap_lua": False}, **more_options)}
     y["declarations"] = [{"decl": "namespace outer", "declarations": decls}] if scope == "ns" else decls
     yp = os.path.join(d, libname + ".yaml")
     with open(yp, "w") as f:
@@ -406,6 +424,9 @@ def run(tier):
             for i, fs in enumerate(scopes):
                 jobs.append((fs, ["lib", "class", "ns", "flat", "ns2", "ns", "lib"][i % 7], i, base))
             rjobs = [(decls, names, "ns" if k % 2 else "lib", 100000 + k, base) for k, (decls, names) in enumerate(rank_generic_scopes())]
+            for cfi in (False, True):
+                rjobs += [(decls, names, "ns" if k % 2 else "lib", 200000 + 100 * cfi + k, base, {"F_CFI": cfi})
+                          for k, (decls, names) in enumerate(result_arg_scopes())]
             with cf.ThreadPoolExecutor(common.NCPU) as ex:
                 results = list(ex.map(one, jobs))
                 results += list(ex.map(one_rank, rjobs))
